@@ -128,6 +128,9 @@ func diffTraverser() *Result {
 		parseAdd(b, 7, "nested-stmts")
 		parseAdd(b, 5, "nested-stmts")
 	}
+	for _, b := range longChainSources() {
+		parseAdd(b, 7, "long-chain")
+	}
 	diffLines(r, lines, real)
 	r.DistinctNontrivial = nontrivial
 	if len(lines) > 0 {
